@@ -199,6 +199,14 @@ func TestReplay(t *testing.T) {
 	if err != nil {
 		t.Fatalf("cannot load %s: %v", p, err)
 	}
+	if env.Test == "TestC12Generations" || env.Test == "TestC13Generations" {
+		var mc MassCase
+		vstat.LoadReplay(p, &mc)
+		for i := 0; i < 3; i++ {
+			runMassT(t, env.Property, "TestReplay", mc)
+		}
+		return
+	}
 	if env.Test == "TestC13ExitRace" {
 		var ec ExitRaceCase
 		vstat.LoadReplay(p, &ec)
@@ -268,4 +276,60 @@ func TestC13ExitRace(t *testing.T) {
 		st.AddExtra("exit_race_attempts", int64(c.Attempts))
 		st.AddExtra("exit_race_arrivals_after_wind_down", int64(after))
 	}
+}
+
+// ---------------------------------------------------------------------------------------------
+// generations (see mass.go)
+
+func genMass(t *rapid.T) MassCase {
+	c := MassCase{
+		Old:        rapid.OneOf(rapid.IntRange(1, 64), rapid.IntRange(65, 1500), rapid.IntRange(4000, vstat.Pick(9000, 20000))).Draw(t, "old"),
+		OldMode:    rapid.SampledFrom([]string{"cancel", "fire", "mixed"}).Draw(t, "oldMode"),
+		Order:      rapid.SampledFrom([]string{"fwd", "rev", "shuffle"}).Draw(t, "order"),
+		New:        rapid.OneOf(rapid.IntRange(1, 64), rapid.IntRange(65, 3000)).Draw(t, "new"),
+		Again:      rapid.IntRange(0, 3).Draw(t, "again"),
+		Seed:       int64(rapid.IntRange(1, 1<<30).Draw(t, "seed")),
+		IdleMs:     rapid.SampledFrom([]int{5, 20, 50}).Draw(t, "idle"),
+		MaxWorkers: rapid.SampledFrom([]int{1, 2, 10}).Draw(t, "maxWorkers"),
+	}
+	if c.OldMode != "cancel" {
+		c.Old = min(c.Old, 3000) // these really fire
+	}
+	c.Between = rapid.IntRange(0, c.New).Draw(t, "between")
+	return c
+}
+
+func runMassT(t vstat.TB, prop, test string, c MassCase) {
+	info, v := RunMass(c, prop)
+	if v != nil && (timeBound[v.Sig] || v.Sig == "timers:lost-after-foreign-cancel") {
+		if _, v2 := RunMass(c, prop); v2 == nil {
+			vstat.For(prop).Inconclusivef("%s once, passed on re-run (machine stall?): %s", v.Sig, v.Msg)
+			v = nil
+		}
+	}
+	vstat.For(prop).Report(t, test, c, v)
+	vstat.For(prop).Case(true, vstat.Hash(c), func() any { return c }, info.Classes...)
+}
+
+var massSystematic = []MassCase{
+	{Old: 4500, OldMode: "cancel", Order: "fwd", New: 2000, Again: 1, IdleMs: 20, MaxWorkers: 10},
+	{Old: 6000, OldMode: "cancel", Order: "rev", New: 3000, Again: 2, IdleMs: 20, MaxWorkers: 2},
+	{Old: 5000, OldMode: "cancel", Order: "shuffle", Seed: 7, New: 1500, Between: 700, Again: 1, IdleMs: 5, MaxWorkers: 10},
+	{Old: 64, OldMode: "fire", Order: "fwd", New: 64, Again: 1, IdleMs: 20, MaxWorkers: 10},
+	{Old: 200, OldMode: "fire", Order: "rev", New: 300, Again: 2, IdleMs: 50, MaxWorkers: 1},
+	{Old: 500, OldMode: "mixed", Order: "shuffle", Seed: 3, New: 500, Between: 100, Again: 1, IdleMs: 20, MaxWorkers: 10},
+}
+
+func TestC12Generations(t *testing.T) {
+	for _, c := range massSystematic {
+		runMassT(t, "C12", "TestC12Generations", c)
+	}
+	rapid.Check(t, func(rt *rapid.T) { runMassT(rt, "C12", "TestC12Generations", genMass(rt)) })
+}
+
+func TestC13Generations(t *testing.T) {
+	for _, c := range massSystematic {
+		runMassT(t, "C13", "TestC13Generations", c)
+	}
+	rapid.Check(t, func(rt *rapid.T) { runMassT(rt, "C13", "TestC13Generations", genMass(rt)) })
 }
